@@ -2274,7 +2274,13 @@ impl GlobalInferenceCtx<'_> {
                         }
                         Expr::InlineParam {
                             comptime_idx: idx, ..
-                        } => self.inline_comptime_tys[*idx as usize],
+                        } => self
+                            .inline_comptime_tys
+                            .get(*idx as usize)
+                            .copied()
+                            // the header this parameter belongs to was never inferred as a
+                            // header (it sits in malformed code that was already reported)
+                            .unwrap_or_else(|| Ty::Unknown.into()),
                         Expr::LocalGlobal(name) => 'local_global: {
                             let fqn = Fqn {
                                 file: self.loc.file(),
